@@ -18,7 +18,14 @@ def load(name):
     """a fresh deep copy of the class diagram kojen's blob parser reads from the shipped project"""
     if name not in _CACHE:
         with kj.quiet():
-            _CACHE[name] = vppclassdiagram.ExtractClassDiagram(name, BLOB_XML)
+            cd = vppclassdiagram.ExtractClassDiagram(name, BLOB_XML)
+        cd.table_vppmodelelements.vpp.con = None          # the sqlite connection cannot be copied
+        for coll in (cd.classes, cd.inheritence, cd.associations, cd.packages):
+            for x in coll.values():
+                t = getattr(x, "table_vppmodelelements", None)
+                if t is not None and getattr(t, "vpp", None) is not None:
+                    t.vpp.con = None
+        _CACHE[name] = cd
     return copy.deepcopy(_CACHE[name])
 
 
@@ -49,12 +56,32 @@ def abstract(cd, lang):
 
 # ---------------------------------------------------------------- mutation of the object graph
 
+def retarget_types(cd, old, new):
+    """replace the fully qualified prefix `old` by `new` in every type string of the diagram (types are references in VP)"""
+    def fix(t):
+        if not isinstance(t, str):
+            return t
+        if t == old:
+            return new
+        return re.sub(r"(?<![\w:])" + re.escape(old) + r"(?=::|$|[^\w])", new, t)
+    for c in cd.classes.values():
+        for a in c.ATTRIBUTES:
+            a.TYPE = fix(a.TYPE)
+        for o in c.OPERATIONS:
+            o.RETURN_TYPE = fix(o.RETURN_TYPE)
+            for p in o.PARAMETERS:
+                p["type"] = fix(p["type"])
+    for a in cd.associations.values():
+        a.CLASS_FROM, a.CLASS_TO = fix(a.CLASS_FROM), fix(a.CLASS_TO)
+    for i in cd.inheritence.values():
+        i.PostProjectParseFix(cd)
+
+
 def rename_namespace(cd, old, new):
     for c in cd.classes.values():
         if c.NAMESPACE == old or c.NAMESPACE.startswith(old + "::"):
             c.NAMESPACE = new + c.NAMESPACE[len(old):]
-    for i in cd.inheritence.values():
-        i.PostProjectParseFix(cd)
+    retarget_types(cd, old, new)
 
 
 def remove_class(cd, cid):
@@ -83,13 +110,12 @@ def mutate(rng, cd, n):
             for o in c.OPERATIONS:
                 if o.NAME.strip() == old.strip():
                     o.NAME = new
-            for i in cd.inheritence.values():
-                i.PostProjectParseFix(cd)
+            retarget_types(cd, c.NAMESPACE + "::" + old, c.NAMESPACE + "::" + new)
         elif k == "remove-class":
             remove_class(cd, cid)
         elif k == "retype-class":
-            f = rng.choice(["PURE_VIRTUAL_INTERFACE", "IS_ENUM", "IS_STRUCT", "AUTOGEN"])
-            setattr(c, f, not getattr(c, f))
+            f = rng.choice(["class", "interface", "enum", "struct", "autogen-class"])
+            c.PURE_VIRTUAL_INTERFACE, c.IS_ENUM, c.IS_STRUCT, c.AUTOGEN = (f == "interface"), (f == "enum"), (f == "struct"), (f == "autogen-class")
             k += ":" + f
         elif k == "rename-package":
             nss = sorted({x.NAMESPACE for x in cd.classes.values() if x.NAMESPACE})
@@ -112,9 +138,10 @@ def mutate(rng, cd, n):
             o = rng.choice(c.OPERATIONS)
             a = rng.choice(["add", "remove", "retype", "rename", "default"])
             if a == "add" or not o.PARAMETERS:
-                o.PARAMETERS.append({"const": rng.choice(["", "const"]), "type": rng.choice(["int", "bool", "double", "uint16_t"]),
-                                     "name": "_p%d" % len(o.PARAMETERS), "modifier": rng.choice(["", "*", "&"]),
-                                     "defaultvalue": rng.choice(["", "", "0"]), "multiplicity": rng.choice(["", "", "4", "0..*"])})
+                o.PARAMETERS.append({"const": rng.choice(["", "const"]), "type": rng.choice(["int", "bool", "double"]),
+                                     "name": "_p%d" % len(o.PARAMETERS), "modifier": rng.choice(["", "*"]),
+                                     "defaultvalue": rng.choice(["", "", "0"]), "multiplicity": rng.choice(["", "", "4", "0..*"]),
+                                     "direction": rng.choice(["in", "inout", "out"])})
             elif a == "remove":
                 o.PARAMETERS.remove(rng.choice(o.PARAMETERS))
             elif a == "retype":
@@ -247,12 +274,28 @@ def definitions(source_text):
     return res
 
 
-def syntax_check(root, rel):
-    """g++ -std=c++17 -fsyntax-only on one generated file (headers through a one-line translation unit)"""
+CAUSES = [("constructors cannot be declared", "interface-constructor-declared-virtual"),
+          ("initializer specified for static member function", "static-operation-of-interface-declared-pure"),
+          ("default argument missing", "default-argument-before-non-default"),
+          ("cannot be overloaded", "operation-emitted-twice"),
+          ("redefinition of", "operation-emitted-twice"),
+          ("no declaration matches", "definition-without-declaration"),
+          ("marked 'override', but does not override", "override-of-nothing"),
+          ("marked \u2018override\u2019, but does not override", "override-of-nothing")]
+
+
+def syntax_check(root, rel, macro=""):
+    """g++ -std=c++17 -fsyntax-only on one generated file (headers through a one-line translation unit).
+    Returns (ok, message, culprit file basename, cause label)"""
     path = os.path.join(root, rel)
-    if rel.endswith(".cpp"):
-        cmd = ["g++", "-std=c++17", "-fsyntax-only", "-I", root, path]
-    else:
-        cmd = ["g++", "-std=c++17", "-fsyntax-only", "-I", root, "-x", "c++", "-include", path, "/dev/null"]
+    cmd = ["g++", "-std=c++17", "-fsyntax-only", "-I", root] + (["-D%s=" % macro] if macro else [])
+    cmd += [path] if rel.endswith(".cpp") else ["-x", "c++", "-include", path, "/dev/null"]
     p = subprocess.run(cmd, stdout=subprocess.PIPE, stderr=subprocess.STDOUT, timeout=120)
-    return p.returncode == 0, p.stdout.decode("utf-8", "replace")[:1500]
+    msg = p.stdout.decode("utf-8", "replace")
+    if p.returncode == 0:
+        return True, "", "", ""
+    m = re.search(r"^([^\s:]+):\d+:\d+: error: (.*)$", msg, re.M)
+    culprit = os.path.basename(m.group(1)) if m else os.path.basename(rel)
+    first = m.group(2) if m else msg[:200]
+    cause = next((lab for pat, lab in CAUSES if pat in first), "other")
+    return False, msg[:1500], culprit, cause
